@@ -7,8 +7,8 @@ from contracts.lib import *  # noqa
 
 LEVEL = "other"
 MANIFEST_ENTRY = {
-    "text": "Modify (MutableFileVersion._modify_once): for every old contents and every modifier result, what is uploaded is exactly the modifier's result whenever that is bytes different from the old contents -- INCLUDING the empty string -- and nothing is uploaded on the first try when the modifier returns None or the old contents. Segment arithmetic of a publish (Publish.setup_encoding_parameters, MDMF, k=3): for every file length, update offset and amount of new data, num_segments = ceil(length/segsize), the starting segment contains the update offset, and for a partial update the end segment is the one containing the last updated byte (so every segment touched is re-encoded and none beyond). Segment trimming on read (Retrieve._set_segment, segment size 7, all integers and segment bytes symbolic, the file a ghost array): the bytes written to the consumer from segment c are exactly file[max(offset, 7c) : min(offset+length, 7(c+1))], for first, middle, last and first==last segments, so the concatenation over the segments is file[offset:offset+length]; the decoded segment handed to it (Retrieve._decode_blocks, contract shared with C36) is cut to the tail size only for the file's last segment, whichever segment the read ends in. In-place update: MutableFileVersion._do_update_update asks for the segment containing the first updated byte and the segment containing the last updated byte (segment size 9, all integers symbolic), and ServermapUpdater stores exactly that pair as the boundary segments whose old blocks are fetched. Boundary merge of an in-place update (TransformingUploadable.read): bounded run-time contract -- for every segment size 1..5, update offset 0..12, new data of 0..10 bytes and file length up to 20, the uploadable read segment by segment yields the old bytes before the offset, the new bytes, and the old bytes after them, and nothing else changes.",
-    "note": "The whole create/overwrite/update/read pipeline (servermap update, Publish push phases, Retrieve decoding, Deferred chains) is not executed end to end; the claim covers the four places where byte ranges are computed or chosen. MutableFileVersion._update's choice between the in-place and whole-file path and _decode_and_decrypt_segments are not under contract.",
+    "text": "Modify (MutableFileVersion._modify_once): for every old contents and every modifier result, what is uploaded is exactly the modifier's result whenever that is bytes different from the old contents -- INCLUDING the empty string -- and nothing is uploaded on the first try when the modifier returns None or the old contents. Segment arithmetic of a publish (Publish.setup_encoding_parameters, MDMF, k=3): for every file length, update offset and amount of new data, num_segments = ceil(length/segsize), the starting segment contains the update offset, and for a partial update the end segment is the one containing the last updated byte (so every segment touched is re-encoded and none beyond). Segment trimming on read (Retrieve._set_segment, segment size 7, all integers and segment bytes symbolic, the file a ghost array): the bytes written to the consumer from segment c are exactly file[max(offset, 7c) : min(offset+length, 7(c+1))], for first, middle, last and first==last segments, so the concatenation over the segments is file[offset:offset+length]; the decoded segment handed to it (Retrieve._decode_blocks, contract shared with C36) is cut to the tail size only for the file's last segment, whichever segment the read ends in. In-place update: MutableFileVersion._do_update_update asks for the segment containing the first updated byte and the segment containing the last updated byte (segment size 9, all integers symbolic), and ServermapUpdater stores exactly that pair as the boundary segments whose old blocks are fetched. Length of the file under update (Publish.update): it is the length recorded in the surveyed version's verinfo, or the end of the new data if larger, for every cached node size (found wrong on the pinned tree: D24, fixed). Boundary merge of an in-place update (TransformingUploadable.read): bounded run-time contract -- for every segment size 1..5, update offset 0..12, new data of 0..10 bytes and file length up to 20, the uploadable read segment by segment yields the old bytes before the offset, the new bytes, and the old bytes after them, and nothing else changes.",
+    "note": "End to end the pipeline is only exercised by the bounded scenario run (real NodeMaker, MutableFileNode/Version, ServermapUpdater, Publish, Retrieve and layout proxies on ten in-memory servers with test-and-set semantics; seeded random sequences of create/overwrite/modify/update/read on MDMF and SDMF files of 1 byte to 3 segments, each mirrored on a byte-string model) -- labelled bounded; the deductive claim covers the places where byte ranges and lengths are computed or chosen. MutableFileVersion._update's choice between the in-place and whole-file path and _decode_and_decrypt_segments are not under contract.",
     "technique": "contract-based deductive verification (pyvc VCs + z3, ghost file array, Deferred-chain model); TransformingUploadable by bounded exhaustive run-time contract",
 }
 EXPLANATION = "Range arithmetic and the modify decision of the real mutable-file code."
@@ -219,7 +219,45 @@ def transforming_failures():
     return bad, n
 
 
+def grid_scenarios(rep, tier):
+    """end-to-end sequences of create / overwrite / modify / update / read on an in-memory grid (contracts/mutable_grid.py)"""
+    import json, os, subprocess, sys
+    from concurrent.futures import ThreadPoolExecutor
+    nproc, nscen = (8, 12) if tier == "quick" else (16, 150)
+
+    def one(seed):
+        try:
+            r = subprocess.run([sys.executable, "-m", "contracts.mutable_grid", str(seed), str(nscen)], capture_output=True, text=True, timeout=1500, cwd="/verif", env=dict(os.environ))
+            line = [ln for ln in r.stdout.splitlines() if ln.startswith("{")]
+            return json.loads(line[-1]) if line else {"scenarios": 0, "operations": 0, "failed_operations": [], "problems": [{"scenario": -1, "what": "harness produced no report: " + (r.stderr or "")[-300:]}]}
+        except Exception as e:      # noqa
+            return {"scenarios": 0, "operations": 0, "failed_operations": [], "problems": [{"scenario": -1, "what": "harness crashed: %r" % (e,)}]}
+    with ThreadPoolExecutor(nproc) as ex:
+        reports = list(ex.map(one, [rep.seed * 100 + i for i in range(nproc)]))
+    name = "Scenarios:every-read-after-a-successful-operation-equals-the-byte-string-model"
+    nops = sum(r["operations"] for r in reports)
+    rep.obligations += 1
+    rep.bounded_obligations += 1
+    rep.paths += nops
+    rep.sym_paths += nops
+    nfailed = sum(len(r["failed_operations"]) for r in reports)
+    rep.bounds.append("mutable scenarios: %d sequences (%d operations) of create/overwrite/modify/update/read on MDMF and SDMF files of 1 byte .. 3 segments, 10 in-memory servers, k=3; %d operations raised and ended their scenario (not counted as violations)" % (sum(r["scenarios"] for r in reports), nops, nfailed))
+    harness = [p for r in reports for p in r["problems"] if p.get("scenario") == -1]
+    bad = [p for r in reports for p in r["problems"] if p.get("scenario") != -1]
+    if harness and not bad:
+        rep.undecided.append({"spec": "Scenarios", "why": harness[0]["what"]})
+        return
+    if not bad:
+        rep.discharged += 1
+        rep.discharged_names.add(name)
+        return
+    b = min(bad, key=lambda p: len(p.get("history", [])))
+    rep.violations.append({"property": "C09", "contract": "Scenarios", "obligation": name, "status": "runtime", "inputs": {"history": b.get("history")},
+                           "native_outcome": "%s (%d failing scenarios)" % (b["what"], len(bad)), "confirmed_on_real_code": True})
+
+
 def extra_checks(rep, tier):
+    grid_scenarios(rep, tier)
     bad, n = transforming_failures()
     name = "TransformingUploadable:segment-wise-reads-yield-old-prefix-new-data-old-suffix"
     rep.obligations += 1
@@ -324,6 +362,68 @@ class UpdaterRange(Spec):
         return [("canary", Z(out.value.fields["end_segment"]) == Z(a["s"]))]
 
 
+class _Stop(Exception):
+    pass
+
+
+class UpdateLength(Spec):
+    """Publish.update: the length of the file being updated is the one recorded in the verinfo of the surveyed version
+    (or the end of the new data if that is larger) -- never the node's cached size"""
+    file = PB
+    qualname = "Publish.update"
+    cross_check = 0
+    raises = ()
+
+    def inputs(self):
+        return {"cached": IntK(0), "verlen": IntK(0), "datasize": IntK(0)}
+
+    def config(self):
+        me = self
+        o = dict(LOG)
+
+        def stop(I, a, kw):
+            me._seen.append(a[0].fields.get("datalength"))
+            raise _Stop()
+        o["Publish.setup_encoding_parameters"] = stop
+        o["defer.Deferred"] = lambda I, a, kw: "deferred"
+        o["twisted.internet.defer.Deferred"] = o["defer.Deferred"]
+        o["time.time"] = lambda I, a, kw: 0
+        return {"overrides": o}
+
+    def run(self, I, a):
+        from allmydata.mutable.common import MODE_WRITE
+        from zope.interface import implementer
+        from allmydata.interfaces import IMutableUploadable
+
+        @implementer(IMutableUploadable)
+        class U(object):
+            pass
+        self._seen = []
+        data = stub("uploadable", get_size=lambda I_, a_, k_: a["datasize"])
+        data.cls = U
+        node = stub("node", get_size=lambda I_, a_, k_: a["cached"], get_writekey=lambda I_, a_, k_: b"w" * 16, get_readkey=lambda I_, a_, k_: b"r" * 16, get_required_shares=lambda I_, a_, k_: 3,
+                    get_total_shares=lambda I_, a_, k_: 10, get_pubkey=lambda I_, a_, k_: "pub", get_privkey=lambda I_, a_, k_: "priv", get_encprivkey=lambda I_, a_, k_: b"e")
+        sm = stub("servermap", get_last_update=lambda I_, a_, k_: (MODE_WRITE, 0), highest_seqnum=lambda I_, a_, k_: 4)
+        sb = stub("broker", get_servers_for_psi=lambda I_, a_, k_: [])
+        st = stub("status", set_size=noop, set_status=noop, set_servermap=noop, set_encoding=noop, timings={})
+        p = SObj(self.module().Publish, {"_node": node, "_servermap": sm, "_storage_broker": sb, "_status": st, "_storage_index": b"s" * 16})
+        version = (4, b"R" * 32, b"S" * 16, 131073, a["verlen"], 3, 10, b"prefix", ())
+        try:
+            I.call_value(self.target(I), [p, data, 0, {}, version], {})
+        except _Stop:
+            pass
+        return p
+
+    def ensures(self, I, a, out):
+        v, ds = Z(a["verlen"]), Z(a["datasize"])
+        ok = len(self._seen) == 1 and self._seen[0] is not None
+        return [("the-encoding-parameters-are-computed-from-a-length", z3.BoolVal(ok)),
+                ("that-length-is-the-surveyed-versions-length-or-the-end-of-the-new-data", (Z(self._seen[0]) == z3.If(ds > v, ds, v)) if ok else z3.BoolVal(False))]
+
+    def canary(self, I, a, out):
+        return [("canary", Z(self._seen[0]) == Z(a["verlen"]))]
+
+
 def contracts(tier):
     from contracts import C36
-    return [ModifyOnce(), PublishSegments(), SetSegment(), UpdateRange(), UpdaterRange(), C36.MutableDecodeBlocks()]
+    return [ModifyOnce(), PublishSegments(), SetSegment(), UpdateRange(), UpdaterRange(), UpdateLength(), C36.MutableDecodeBlocks()]
